@@ -3,6 +3,7 @@ package main
 // Calls: contracts, interface contracts, inlining, built-ins, locks, havoc.
 
 import (
+	"path/filepath"
 	"os"
 	"fmt"
 	"go/token"
@@ -47,6 +48,13 @@ func (vc *VC) havocHeap(why string) {
 }
 
 func (vc *VC) havocEverything(why string, keepGhost bool) {
+	if vc.discovery > 0 {
+		keep := map[string]bool{}
+		for k := range vc.keepHeaps {
+			keep[k] = true
+		}
+		vc.discHavocs = append(vc.discHavocs, havocRec{keepGhost: keepGhost, keep: keep})
+	}
 	if keepGhost {
 		if vc.checkFrame && !vc.modAll && !vc.modHeap && vc.discovery == 0 {
 			vc.oblige("frame", "havoc-heap", "false", token.NoPos, "a callee that may change the whole heap is called ("+why+"), so the function must declare `modifies heap`")
@@ -199,6 +207,14 @@ func (vc *VC) atCallAsserts(fr *Frame, c *ssa.CallCommon, args []*Val, site ssa.
 		name = callee.String()
 	} else {
 		return
+	}
+	// methods of instantiated generic types print as (*pkg.T[args]).M[args]
+	if strings.HasSuffix(name, "]") {
+		if i := strings.LastIndex(name, ")."); i >= 0 {
+			if j := strings.Index(name[i:], "["); j >= 0 {
+				name = name[:i+j]
+			}
+		}
 	}
 	for i, ac := range specFr.spec.AtCalls {
 		if !(name == ac.Callee || strings.HasSuffix(name, "."+ac.Callee) || strings.HasSuffix(name, ")."+ac.Callee) || strings.HasSuffix(name, "/"+ac.Callee)) {
@@ -405,6 +421,12 @@ func (vc *VC) callFunction(fr *Frame, fn *ssa.Function, bindings []*Val, args []
 		return r
 	}
 	spec := vc.p.specFor(fn)
+	if spec != nil && vc.top != nil && vc.top.fn != nil && vc.top.fn.Pkg != nil {
+		if v, ok := vc.p.db.Views[vc.top.fn.Pkg.Pkg.Path()+"|"+spec.Key]; ok {
+			spec = v
+			vc.used.Assumes["calls of "+calleeShort(spec.Key)+" from this package use the package's own assumed view ("+filepath.Base(filepath.Dir(spec.File))+"/"+filepath.Base(spec.File)+fmt.Sprintf(":%d", spec.Line)+"), not the contract verified in its home package"] = true
+		}
+	}
 	if spec != nil && !spec.Inline && !spec.Transparent {
 		if spec.Pure && len(spec.Ensures) == 0 && len(spec.Requires) == 0 {
 			vc.used.Pure[calleeShort(name)] = true
